@@ -172,7 +172,7 @@ def main(argv=None):
         print("INCONCLUSIVE property=%s reason=%s" % (prop, "; ".join(reasons)))
 
     wall = time.time() - t0
-    if not a.replay:
+    if not a.replay and not os.environ.get("VERIF_NO_EVIDENCE"):
         cov = {"evaluations": int(evaluations), "distinct_nontrivial": len(nontrivial), "rule": mod.RULE,
                "samples": samples[:4] or ["(no sample recorded)"], "cases": cases, "shards": nshards,
                "dead_shards": len(dead), "inconclusive_reasons": reasons,
